@@ -902,6 +902,7 @@ func c14Lits(args []string) error {
 			ID  int    `json:"id"`
 			Lit []int  `json:"lit"`
 			Cat string `json:"cat"`
+			Pre string `json:"pre"` // other literals scanned before this one in the same text: "(" Pre Lit ",)"
 		}
 		if err := json.Unmarshal(raw, &c); err != nil {
 			return err
@@ -911,7 +912,20 @@ func c14Lits(args []string) error {
 			b[i] = byte(x)
 		}
 		rec := obj{"id": c.ID, "lit": c.Lit, "cat": c.Cat}
+		shift := 0
+		if c.Pre != "" {
+			b = []byte("(" + c.Pre + string(b) + ",)")
+			shift = 1 + len(c.Pre)
+		}
 		e, err := opts.ParseExpr("lit.star", b, 0)
+		if err == nil && c.Pre != "" {
+			// the literal under test is the last element of the tuple
+			if pe, ok := e.(*syntax.ParenExpr); ok {
+				if te, ok := pe.X.(*syntax.TupleExpr); ok && len(te.List) > 0 {
+					e = te.List[len(te.List)-1]
+				}
+			}
+		}
 		if err != nil {
 			res := obj{"ok": false, "err": err.Error(), "pos": false}
 			var se syntax.Error
@@ -923,7 +937,7 @@ func c14Lits(args []string) error {
 			res := c14LitValue(lit)
 			res["raw"] = byteArr(lit.Raw)
 			p := lit.TokenPos
-			res["start"] = []int{int(p.Line), int(p.Col)}
+			res["start"] = []int{int(p.Line), int(p.Col) - shift}
 			rec["res"] = res
 		} else {
 			rec["res"] = obj{"ok": false, "err": fmt.Sprintf("parsed as %T, not as one literal", e), "pos": true, "other": true}
